@@ -182,6 +182,15 @@ pub type Finally {
 pub type Ints =
   List<Int>
 
+pub type Registry<a> {
+  entries: List<a>,
+}
+
+pub type Tagged<a, b> {
+  Left(a)
+  Right { value: b, more: List<Pair<a, b>> }
+}
+
 pub type Holder {
   ints: Ints,
   w: Wow,
@@ -198,6 +207,10 @@ fn decorated_types() -> Vec<(&'static str, Vec<&'static str>)> {
         ("Holder", vec!["Holder { ints: [3], w: Far }", "Holder { ints: [], w: Toro(1) }"]),
         ("List<Dino>", vec!["[Dino(1, 2, #\"\")]", "[]"]),
         ("Option<Wow>", vec!["Some(Near)", "None"]),
+        // a type parameter instantiated with a pair: `List<a>` then is a map
+        ("Registry<Pair<Int, ByteArray>>", vec!["Registry { entries: [Pair(1, #\"aa\"), Pair(2, #\"\")] }", "Registry { entries: [] }"]),
+        ("Registry<Int>", vec!["Registry { entries: [1, 2] }"]),
+        ("Tagged<Int, Bool>", vec!["Left(1)", "Right { value: True, more: [Pair(1, False)] }"]),
     ]
 }
 
@@ -370,7 +383,7 @@ fn validator_family(run: &mut Run, universe: &[RData]) -> (u64, u64) {
     let mut lib = String::from(DECORATED_DECLS);
     lib.push('\n');
     lib.push_str(VALIDATOR_TYPES);
-    let mut val = String::from("use deco.{Account, Color, Dino, Finally, Holder, Ints, Shape, Wow}\n");
+    let mut val = String::from("use deco.{Account, Color, Dino, Finally, Holder, Ints, Registry, Shape, Tagged, Wow}\n");
     for (k, (t, samples)) in tys.iter().enumerate() {
         for (j, e) in samples.iter().enumerate() {
             lib.push_str(&format!("\npub fn vsample_{k}_{j}() -> Data {{\n  let v: {t} = {e}\n  let d: Data = v\n  d\n}}\n"));
